@@ -22,8 +22,8 @@ STEP_BASE = 5000
 STEP_PER_BYTE = 400
 RSS_LIMIT_KB = 256 * 1024
 BATCH = 24
-LONG_BATCH = 240
-SHARD = 240
+LONG_BATCH = 120
+SHARD = 120
 
 # populated by prepare() in the coordinator before any worker is forked
 W = {
@@ -413,7 +413,7 @@ def _on_alarm(signum, frame):
     raise _WallGuard()
 
 
-NOFILE_SPARE = 10
+NOFILE_SPARE = 6
 
 
 def _small_fd_table():
@@ -659,7 +659,7 @@ def run_shard(shard):
         # faulted host-magic images go alone: only C marshal can corrupt the process
         batch = []
         singles = []
-        # one shard in eight is a long-lived loader process (240 loads) under the small descriptor table
+        # one shard in eight is a long-lived loader process (120 loads) under the small descriptor table
         bsize = LONG_BATCH if (lo // SHARD) % 8 == 3 else BATCH
         while pending and len(batch) < bsize:
             i = pending.pop(0)
